@@ -15,4 +15,14 @@ Separate Extraction
   f128_add_ok f128_sub_ok f128_mul_ok f128_neg_ok
   f62_exp_vartime f64_get_root_of_unity f64_get_root_of_unity_ok f62_get_root_of_unity f62_get_root_of_unity_ok
   f128_get_root_of_unity f128_get_root_of_unity_ok
-  f64_from_bytes_with_padding f62_from_bytes_with_padding f128_from_bytes_with_padding.
+  f64_from_bytes_with_padding f62_from_bytes_with_padding f128_from_bytes_with_padding
+  f64_from_bool f64_from_u8 f64_from_u16 f64_from_u32 f64_from_u8_ok f64_from_u16_ok f64_from_u32_ok f64_from_bool_ok
+  f64_try_from_usize f64_to_bool f64_to_u8 f64_to_u16 f64_to_u32 f64_to_u64 f64_to_u128 f64_sf_as_int f64_conjugate
+  f64_add_assign f64_sub_assign f64_mul_assign f64_div_assign f64_base_element
+  f62_from_u8 f62_from_u16 f62_from_u32 f62_from_u8_ok f62_from_u16_ok f62_from_u32_ok f62_to_u64 f62_to_u128 f62_to_u64_ok f62_to_u128_ok
+  f62_try_from_bytes f62_conjugate f62_add_assign f62_sub_assign f62_mul_assign f62_div_assign f62_base_element
+  f128_from_u8 f128_from_u16 f128_from_u32 f128_from_u64 f128_conjugate
+  f128_add_assign f128_sub_assign f128_mul_assign f128_div_assign f128_base_element
+  f64_try_from_slice f62_try_from_slice f128_try_from_slice
+  f64_as_bytes f62_as_bytes f128_as_bytes f64_elements_as_bytes f62_elements_as_bytes f128_elements_as_bytes
+  f64_bytes_as_elements f62_bytes_as_elements f128_bytes_as_elements.
